@@ -71,14 +71,15 @@ func (sv structValue) findField(name string) (*reflect.StructField, bool) {
 	if sr.Kind() == reflect.Ptr {
 		sr = sr.Elem()
 	}
-	if field, ok := sr.FieldByName(name); ok {
+	// Unexported fields are skipped: reflect refuses to hand out their values.
+	if field, ok := sr.FieldByName(name); ok && field.IsExported() {
 		if _, ok := field.Tag.Lookup(tagKey); !ok {
 			return &field, true
 		}
 	}
 	for i, n := 0, sr.NumField(); i < n; i++ {
 		field := sr.Field(i)
-		if field.Tag.Get(tagKey) == name {
+		if field.IsExported() && field.Tag.Get(tagKey) == name {
 			return &field, true
 		}
 	}
